@@ -200,6 +200,8 @@ theorem HInv_stepTruncate (h : H) (s : Store) (f : Int) (hi : HInv h s) :
     HInv (stepTruncate h s f).1 (stepTruncate h s f).2.1 := by
   by_cases hm : h.mode = .r
   · rw [stepTruncate_rmode _ _ _ hm]; exact hi.set_error _
+  cases hc : h.canTruncate
+  · rw [stepTruncate_vio _ _ _ hm hc]; exact hi.set_error _
   by_cases hf : 0 ≤ f
   · rw [stepTruncate_ok _ _ _ hm hf]
     have hrp := hi.rpos_nn
@@ -213,7 +215,7 @@ theorem HInv_stepTruncate (h : H) (s : Store) (f : Int) (hi : HInv h s) :
     · subst hf1
       rw [stepTruncate_minus1 _ _ hm]
       split <;> exact hi.of_writable (by exact hm) rfl rfl hi.rpos_nn hi.wpos_nn hi.off_nn
-    · rw [stepTruncate_neg _ _ _ hm (by omega) hf1]; exact hi.set_error _
+    · rw [stepTruncate_neg _ _ _ hm hc (by omega) hf1]; exact hi.set_error _
 
 theorem HInv_closeHandle (h : H) (s : Store) (hi : HInv h s) : HInv h (closeHandle h s) := by
   by_cases hm : h.mode = .r
